@@ -6,8 +6,10 @@ use ff::Field;
 use mzkh::Ctx;
 use serde_json::json;
 
+mod keys;
 mod rel;
 mod vals;
+mod ver;
 
 use rel::{MixRelation, Path, Step};
 use vals::*;
@@ -110,15 +112,43 @@ fn has_long_jscalar(rel: &MixRelation) -> bool {
 ///  * the bound instance rows must be exactly `0..len` of the encoded vectors, and the cells
 ///    they are tied to must hold the encoded values.
 fn expose_case(ctx: &mut Ctx, kc: &mut KCache, kind: &str, steps: Vec<Step>, items: Vec<Item>) {
+    expose_case_n(ctx, kc, kind, steps, items, usize::MAX)
+}
+
+/// Same, with at most `max_edits` edited positions (first, last and seeded random ones) when
+/// the encoding is longer; the positions are then part of the request (`exposeat`).
+fn expose_case_n(ctx: &mut Ctx, kc: &mut KCache, kind: &str, steps: Vec<Step>, items: Vec<Item>, max_edits: usize) {
     let rel = MixRelation::new(steps);
-    let line = format!(
-        "expose {}",
-        if rel.steps.is_empty() {
-            "-".to_string()
-        } else {
-            rel.steps.iter().zip(&items).map(|(s, it)| format!("{}:{}", s.path.tag(), it.token())).collect::<Vec<_>>().join(" ")
+    let body = if rel.steps.is_empty() {
+        "-".to_string()
+    } else {
+        rel.steps.iter().zip(&items).map(|(s, it)| format!("{}:{}", s.path.tag(), it.token())).collect::<Vec<_>>().join(" ")
+    };
+    let enc_total = mzkh::catch(|| {
+        let (p, c) = rel::raw_vectors(&rel, &items);
+        p.len() + c.len()
+    })
+    .unwrap_or(0);
+    let positions: Vec<usize> = if enc_total <= max_edits {
+        (0..enc_total).collect()
+    } else {
+        use rand::Rng;
+        let mut rng = ctx.rng(&format!("positions:{body}"));
+        let mut v = vec![0, enc_total - 1];
+        while v.len() < max_edits {
+            let i = rng.gen_range(0..enc_total);
+            if !v.contains(&i) {
+                v.push(i);
+            }
         }
-    );
+        v.sort();
+        v
+    };
+    let line = if enc_total <= max_edits {
+        format!("expose {body}")
+    } else {
+        format!("exposeat {} {body}", mzkh::join(&positions))
+    };
     let key = format!("expose:{line}");
     // `min_k` (cost model) does not count the rows taken by constants: grow k while the
     // synthesis runs out of rows.
@@ -167,7 +197,7 @@ fn expose_case(ctx: &mut Ctx, kc: &mut KCache, kind: &str, steps: Vec<Step>, ite
     let mut accepted_edits = vec![];
     let total = plain.len() + com.len();
     if obs.sat {
-        for i in 0..total {
+        for &i in &positions {
             let (mut p2, mut c2) = (plain.clone(), com.clone());
             if i < plain.len() {
                 p2[i] += F::ONE;
@@ -183,7 +213,7 @@ fn expose_case(ctx: &mut Ctx, kc: &mut KCache, kind: &str, steps: Vec<Step>, ite
                 }
             }
         }
-        ctx.count_n("edits_tried", total as u64);
+        ctx.count_n("edits_tried", positions.len() as u64);
     }
     let ans = format!(
         "plain={} com={} sat={} rej={}/{}",
@@ -191,7 +221,7 @@ fn expose_case(ctx: &mut Ctx, kc: &mut KCache, kind: &str, steps: Vec<Step>, ite
         fmt_bound(&obs.committed),
         obs.sat as u8,
         rejected,
-        total
+        positions.len()
     );
     ctx.case(kind, true, &line, &ans);
     ctx.count(&format!("k:{k}"));
@@ -306,9 +336,331 @@ fn run_expose_single(ctx: &mut Ctx) {
     }
 }
 
+/// A random valid entry point for the item's type. `keygen`: the relation goes through real key
+/// generation and proving (no committed column: `format_instance` has no access to the
+/// relation; no long constant bit vectors: the cost model behind `min_k` does not count constants).
+fn rand_path(rng: &mut rand_chacha::ChaCha8Rng, it: &Item, keygen: bool) -> Path {
+    use rand::Rng;
+    loop {
+        let p = match rng.gen_range(0..6) {
+            0 | 1 => Path::Constrain,
+            2 => Path::Assign,
+            3 => Path::Fixed,
+            4 => Path::Committed,
+            _ => Path::Derived(rng.gen_range(0..2)),
+        };
+        let ok = match (it, p) {
+            (Item::Bit(_) | Item::Byte(_) | Item::Native(_), Path::Committed) => !keygen,
+            (_, Path::Committed) => false,
+            (Item::Bit(_) | Item::Byte(_), Path::Derived(_)) => false,
+            (Item::JScalar(_), Path::Derived(_)) => false,
+            (Item::JScalar(_), Path::Fixed) => !keygen,
+            (Item::Big(_, _), Path::Assign) => false,
+            (Item::Big(nb, v), Path::Fixed) => (v.bits().max(1) as u32) == *nb,
+            (Item::Big(nb, _), Path::Derived(0)) => nb % 8 == 0,
+            (Item::Big(_, _), Path::Derived(_)) => false,
+            _ => true,
+        };
+        if ok {
+            return p;
+        }
+    }
+}
+
+fn rand_relation(rng: &mut rand_chacha::ChaCha8Rng, n: usize, chips: (bool, bool, bool), keygen: bool) -> (Vec<Step>, Vec<Item>) {
+    let mut steps = vec![];
+    let mut items = vec![];
+    for _ in 0..n {
+        let it = rand_item(rng, chips);
+        let path = rand_path(rng, &it, keygen);
+        steps.push(Step { path, proto: it.clone() });
+        items.push(it);
+    }
+    (steps, items)
+}
+
+fn steps_body(steps: &[Step], items: &[Item]) -> String {
+    if steps.is_empty() {
+        "-".to_string()
+    } else {
+        steps.iter().zip(items).map(|(s, it)| format!("{}:{}", s.path.tag(), it.token())).collect::<Vec<_>>().join(" ")
+    }
+}
+
+/// Relations exposing 0..40 inputs of mixed types through the mock prover.
+fn run_expose_mixed(ctx: &mut Ctx) {
+    use rand::Rng;
+    let mut kc = KCache(Default::default());
+    let mut rng = ctx.rng("mixed");
+    let sizes: Vec<usize> = if ctx.quick() { vec![0, 1, 2, 3, 5, 9, 17, 40] } else { (0..=40).collect() };
+    let max_edits = if ctx.quick() { 6 } else { 16 };
+    for n in sizes {
+        let reps = if ctx.quick() { 1 } else { 2 };
+        for _ in 0..reps {
+            // small relations use every chip; the large ones mostly native types (cost)
+            let chips = if n <= 9 { (true, true, true) } else { (rng.gen_bool(0.7), rng.gen_bool(0.3), rng.gen_bool(0.2)) };
+            let (steps, items) = rand_relation(&mut rng, n, chips, false);
+            expose_case_n(ctx, &mut kc, "expose-mixed", steps, items, max_edits);
+            ctx.count(&format!("mixed-inputs:{}", if n <= 2 { n.to_string() } else if n <= 9 { "3-9".into() } else { "10-40".into() }));
+        }
+    }
+}
+
+/// Real key generation: `nb_public_inputs` stored in the key = length of `format_instance`;
+/// real proofs for a subset: the honest instance verifies, vectors of other lengths are
+/// rejected as `InvalidInstances`, edited vectors are rejected.
+fn run_keys(ctx: &mut Ctx) {
+    use midnight_zk_stdlib::Relation;
+    use rand::Rng;
+    let mut srs = keys::Srs::new();
+    let mut rng = ctx.rng("keys");
+    let sizes: Vec<usize> = if ctx.quick() { vec![0, 1, 2, 6, 13, 40] } else { (0..=40).collect() };
+    for (idx, n) in sizes.into_iter().enumerate() {
+        let with_proof = if ctx.quick() { n <= 2 || n == 13 } else { n % 3 != 2 };
+        let chips = if n <= 6 && !with_proof {
+            (true, true, true)
+        } else {
+            (rng.gen_bool(0.5), n <= 13 && rng.gen_bool(0.3), n <= 6 && rng.gen_bool(0.2))
+        };
+        let (steps, items) = rand_relation(&mut rng, n, chips, with_proof);
+        let rel = MixRelation::new(steps.clone());
+        let body = steps_body(&steps, &items);
+        let line = format!("nbpi {body}");
+        let key = format!("keys:{body}");
+        let fmt_len = {
+            let (p, c) = rel::raw_vectors(&rel, &items);
+            (p.len(), c.len())
+        };
+        let keyed = match mzkh::catch(|| keys::keygen(&mut srs, &rel)) {
+            Ok(Ok(k)) => k,
+            Ok(Err(e)) | Err(e) => {
+                ctx.case("nbpi", true, &line, "keygen-failed");
+                ctx.oracle_fail(&key, "key generation fails for a relation exposing public inputs", json!({"line": line, "error": e}));
+                continue;
+            }
+        };
+        // committed counter is not recorded in the key; the model still answers it
+        let ncom = rel.steps.iter().zip(&items).filter(|(s, _)| s.path == Path::Committed).map(|(_, it)| it.encode().len()).sum::<usize>();
+        ctx.case("nbpi", true, &line, &format!("nb={} fmt={} com={} fmtcom={}", keyed.nb, fmt_len.0, ncom, fmt_len.1));
+        ctx.count(&format!("keygen-k:{}", keyed.k));
+        if keyed.nb != fmt_len.0 {
+            ctx.oracle_fail(
+                &key,
+                "the number of raw public inputs recorded in the verifying key differs from the length of format_instance",
+                json!({"line": line, "vk_nb_public_inputs": keyed.nb, "format_instance_len": fmt_len.0}),
+            );
+        }
+        if !with_proof {
+            continue;
+        }
+        let pi_len = MixRelation::format_instance(&items).map(|v| v.len()).unwrap_or(0);
+        let positions: Vec<usize> = if pi_len == 0 { vec![] } else { vec![0, pi_len / 2, pi_len - 1] };
+        let line2 = format!("proof {idx} {}", pi_len);
+        match mzkh::catch(|| keys::prove_and_verify(&mut srs, &rel, &keyed, &items, &positions)) {
+            Ok(Ok(r)) => {
+                let ans = format!(
+                    "honest={} batch={} longer={} shorter={} edits={}/{}",
+                    r.honest_ok as u8, r.batch_ok as u8, r.longer, r.shorter, r.edits_rejected, r.edits_tried
+                );
+                ctx.case("proof", true, &line2, &ans);
+                let bad_len = r.longer != "invalid-instances/invalid-instances" || (pi_len > 0 && r.shorter != "invalid-instances");
+                if !r.honest_ok || !r.batch_ok {
+                    ctx.oracle_fail(&key, "an honest proof is rejected with the instance formatted by format_instance", json!({"line": line, "error": r.honest_err, "k": keyed.k}));
+                } else if bad_len {
+                    ctx.oracle_fail(&key, "the verifier does not insist on exactly nb_public_inputs raw inputs", json!({"line": line, "longer": r.longer, "shorter": r.shorter}));
+                } else if r.edits_rejected != r.edits_tried {
+                    ctx.oracle_fail(&key, "the verifier accepts an edited raw instance vector", json!({"line": line, "rejected": r.edits_rejected, "tried": r.edits_tried}));
+                }
+            }
+            Ok(Err(e)) | Err(e) => {
+                ctx.case("proof", true, &line2, "failed");
+                ctx.oracle_fail(&key, "proving/verifying an honest instance fails", json!({"line": line, "error": e}));
+            }
+        }
+    }
+}
+
+fn rand_msm(rng: &mut rand_chacha::ChaCha8Rng, nbases: usize, nfixed: usize, tag: &str) -> ver::MsmVal {
+    use group::Group;
+    use rand::Rng;
+    let pt = |rng: &mut rand_chacha::ChaCha8Rng| match rng.gen_range(0..5) {
+        0 => ver::C::identity(),
+        1 => ver::C::generator(),
+        2 => -ver::C::generator(),
+        _ => ver::C::random(&mut *rng),
+    };
+    let sc = |rng: &mut rand_chacha::ChaCha8Rng| match rng.gen_range(0..5) {
+        0 => F::ZERO,
+        1 => F::ONE,
+        2 => -F::ONE,
+        _ => F::random(&mut *rng),
+    };
+    // names deliberately not in sorted order
+    let mut names: Vec<String> = (0..nfixed).map(|i| format!("{tag}_fixed_com_{}", (i * 7 + 3) % 11)).collect();
+    if nfixed > 1 {
+        names.push("-G".into());
+        names.remove(0);
+    }
+    ver::MsmVal {
+        bases: (0..nbases).map(|_| pt(rng)).collect(),
+        scalars: (0..nbases).map(|_| sc(rng)).collect(),
+        fixed: names.into_iter().map(|n| (n, sc(rng))).collect(),
+    }
+}
+
+fn fmt_bound(b: &rel::Bound) -> String {
+    let contiguous = b.rows.iter().enumerate().all(|(i, r)| i == *r);
+    let cells: Vec<String> = b.cells.iter().map(|c| c.map(|f| hex(&f)).unwrap_or("?".into())).collect();
+    format!("{}{}:{}", b.rows.len(), if contiguous { "" } else { "!gap" }, if cells.is_empty() { "-".into() } else { cells.join(",") })
+}
+
+/// One verifier-gadget exposure through the mock prover (same oracle as `expose_case`).
+fn ver_case(ctx: &mut Ctx, kind: &str, line_head: &str, body: &str, circuit: ver::VerCircuit, plain: Vec<F>, com: Vec<F>, max_edits: usize) {
+    use rand::Rng;
+    let total = plain.len() + com.len();
+    let positions: Vec<usize> = if total <= max_edits {
+        (0..total).collect()
+    } else {
+        let mut rng = ctx.rng(&format!("verpos:{body}"));
+        let mut v = vec![0, total - 1, plain.len().saturating_sub(1), plain.len().min(total - 1)];
+        v.sort();
+        v.dedup();
+        while v.len() < max_edits {
+            let i = rng.gen_range(0..total);
+            if !v.contains(&i) {
+                v.push(i);
+            }
+        }
+        v.sort();
+        v
+    };
+    let line = format!("{line_head} {} {body}", mzkh::join(&positions));
+    let key = format!("ver:{line_head}:{body}");
+    let mut k = 10;
+    let obs = loop {
+        let r = mzkh::catch(|| ver::observe(&circuit, k, &com, &plain));
+        let out_of_rows = match &r {
+            Ok(Err(e)) => e.contains("NotEnoughRows"),
+            Err(p) => p.contains("usable_rows") || p.contains("minimum_rows"),
+            _ => false,
+        };
+        if out_of_rows && k < 15 {
+            k += 1;
+            continue;
+        }
+        break r;
+    };
+    let obs = match obs {
+        Ok(Ok(o)) => o,
+        Ok(Err(e)) | Err(e) => {
+            ctx.case(kind, true, &line, "error");
+            ctx.oracle_fail(&key, "exposing an honest verifier-gadget value fails", json!({"line": line, "error": e}));
+            return;
+        }
+    };
+    let mut rejected = 0;
+    let mut accepted = vec![];
+    if obs.sat {
+        for &i in &positions {
+            let (mut p2, mut c2) = (plain.clone(), com.clone());
+            if i < plain.len() {
+                p2[i] += F::ONE;
+            } else {
+                c2[i - plain.len()] += F::ONE;
+            }
+            match mzkh::catch(|| ver::verdict(&circuit, k, &c2, &p2)) {
+                Ok(Ok(false)) => rejected += 1,
+                _ => accepted.push(i),
+            }
+        }
+        ctx.count_n("edits_tried", positions.len() as u64);
+    }
+    let ans = format!("plain={} com={} sat={} rej={}/{}", fmt_bound(&obs.plain), fmt_bound(&obs.committed), obs.sat as u8, rejected, positions.len());
+    ctx.case(kind, true, &line, &ans);
+    ctx.count(&format!("ver-k:{k}"));
+    let check = |b: &rel::Bound, enc: &[F]| {
+        b.rows.len() == enc.len() && b.rows.iter().enumerate().all(|(i, r)| i == *r) && b.cells.iter().zip(enc).all(|(c, e)| c.as_ref() == Some(e))
+    };
+    if !obs.sat {
+        ctx.oracle_fail(&key, "the circuit exposing v rejects the off-circuit encoding of v", json!({"line": line, "k": k, "bound": ans}));
+    } else if !accepted.is_empty() {
+        ctx.oracle_fail(&key, "the circuit exposing v accepts a raw vector different from the encoding of v", json!({"line": line, "k": k, "positions": accepted}));
+    } else if !check(&obs.plain, &plain) || !check(&obs.committed, &com) {
+        ctx.oracle_fail(&key, "the instance rows bound by the circuit are not exactly the positions of the off-circuit encoding", json!({"line": line, "k": k, "bound": ans, "plain": fq_list(&plain), "committed": fq_list(&com)}));
+    }
+}
+
+/// Verifying-key identities, MSMs, accumulators.
+fn run_verifier(ctx: &mut Ctx) {
+    use rand::Rng;
+    let mut rng = ctx.rng("verifier");
+    let quick = ctx.quick();
+    // --- off-circuit encoders of MSMs / accumulators on many shapes
+    let shapes: Vec<(usize, usize)> = if quick { vec![(0, 0), (1, 0), (0, 1), (1, 1), (2, 3), (3, 2)] } else { (0..=4).flat_map(|a| (0..=4).map(move |b| (a, b))).collect() };
+    for &(nb, nf) in &shapes {
+        for rep in 0..(if quick { 2 } else { 4 }) {
+            let m = rand_msm(&mut rng, nb, nf, "a");
+            ctx.case("enc:msm", true, &format!("encmsm bls {}", m.token()), &fq_list(&ver::enc_msm(&m)));
+            let (p, c) = ver::enc_msm_committed(&m);
+            ctx.case("enc:msm-committed", true, &format!("encmsmc bls {}", m.token()), &format!("{} | {}", fq_list(&p), fq_list(&c)));
+            let r = rand_msm(&mut rng, (nb + rep) % 3, (nf + 1) % 4, "b");
+            ctx.case("enc:acc", true, &format!("encacc bls {} {}", m.token(), r.token()), &fq_list(&ver::enc_acc(&m, &r)));
+            let (p, c) = ver::enc_acc_committed(&m, &r);
+            ctx.case("enc:acc-committed", true, &format!("encaccc bls {} {}", m.token(), r.token()), &format!("{} | {}", fq_list(&p), fq_list(&c)));
+        }
+    }
+    // --- verifying keys of two different relations: identities, and the exposure
+    let mut srs = keys::Srs::new();
+    let rel_a = MixRelation::new(vec![Step { path: Path::Constrain, proto: Item::Native(F::ZERO) }]);
+    let rel_b = MixRelation::new(vec![Step { path: Path::Constrain, proto: Item::Native(F::ZERO) }, Step { path: Path::Constrain, proto: Item::Bit(false) }]);
+    let mut encs = vec![];
+    for (name, rel) in [("A", &rel_a), ("B", &rel_b)] {
+        match mzkh::catch(|| keys::keygen(&mut srs, rel)) {
+            Ok(Ok(keyed)) => {
+                let vk = keyed.vk.vk().clone();
+                let repr = vk.transcript_repr();
+                let e = ver::enc_vk(&vk);
+                ctx.case("enc:vk", true, &format!("encvk {}", hex(&repr)), &fq_list(&e));
+                encs.push(e.clone());
+                let circuit = ver::VerCircuit { what: ver::Expose::Vk, vk: Some(vk), lhs: rand_msm(&mut rng, 0, 0, "x"), rhs: rand_msm(&mut rng, 0, 0, "x") };
+                ver_case(ctx, "expose-vk", "exposevk", &hex(&repr), circuit, e, vec![], 4);
+            }
+            Ok(Err(e)) | Err(e) => ctx.oracle_fail(&format!("ver:keygen:{name}"), "key generation fails", json!({"error": e})),
+        }
+    }
+    if encs.len() == 2 && encs[0] == encs[1] {
+        ctx.oracle_fail("ver:vk-identity-collision", "two different verifying keys share a public-input encoding", json!({}));
+    }
+    // --- accumulators through the circuit
+    let acc_shapes: Vec<((usize, usize), (usize, usize))> = if quick {
+        vec![((1, 0), (1, 2)), ((0, 0), (0, 0)), ((2, 1), (1, 0))]
+    } else {
+        vec![((1, 0), (1, 2)), ((0, 0), (0, 0)), ((2, 1), (1, 0)), ((0, 2), (2, 2)), ((1, 1), (0, 3)), ((3, 0), (1, 1)), ((1, 0), (1, 0)), ((2, 2), (2, 2))]
+    };
+    let max_edits = if quick { 8 } else { 16 };
+    for (ls, rs) in acc_shapes {
+        for committed in [false, true] {
+            let l = rand_msm(&mut rng, ls.0, ls.1, "l");
+            let r = rand_msm(&mut rng, rs.0, rs.1, "r");
+            let body = format!("{} {}", l.token(), r.token());
+            let circuit = ver::VerCircuit { what: if committed { ver::Expose::AccCommitted } else { ver::Expose::Acc }, vk: None, lhs: l.clone(), rhs: r.clone() };
+            if committed {
+                let (p, c) = ver::enc_acc_committed(&l, &r);
+                ver_case(ctx, "expose-acc-committed", "exposeaccc", &body, circuit, p, c, max_edits);
+            } else {
+                ver_case(ctx, "expose-acc", "exposeacc", &body, circuit, ver::enc_acc(&l, &r), vec![], max_edits);
+            }
+        }
+    }
+    let _ = rng.gen::<u8>();
+}
+
 fn main() {
     let mut ctx = Ctx::from_args("C08");
     run_enc(&mut ctx);
     run_expose_single(&mut ctx);
+    run_expose_mixed(&mut ctx);
+    run_keys(&mut ctx);
+    run_verifier(&mut ctx);
     ctx.finish();
 }
